@@ -150,6 +150,8 @@ func (p *Protocol) downloadBlockFromPeerOld(height int64, pid peer.ID) (*types.B
 		return nil, err
 	}
 	defer stream.Close()
+	// the context only bounds the stream setup, bound the request/response exchange as well
+	_ = stream.SetDeadline(time.Now().Add(time.Second * 10))
 	blockReq := types.MessageGetBlocksReq{
 		Message: &types.P2PGetBlocks{
 			StartHeight: height,
